@@ -63,8 +63,8 @@ T = [
     ("mo-int-prefix", M + "month.py", "            if v_lower in _MONTH_ABBREV:\n                return (\n                    _MONTH_ABBREV.index(v_lower[:3]) + 1,",
      "            if v_lower[:3] in _MONTH_ABBREV and (len(v_lower) == 3 or v_lower not in _LOWERCASE_FULL):\n                return (\n                    _MONTH_ABBREV.index(v_lower[:3]) + 1,", ["C15"],
      "any word starting with a month abbreviation is a month (janx, mayor, marching)"),
-    ("mo-long-strip", M + "month.py", "        elif isinstance(v, str):\n            v_lower = v.lower()\n            if v_lower in _MONTH_ABBREV_TO_FULL:",
-     "        elif isinstance(v, str):\n            v_lower = v.strip().lower()\n            if v_lower in _MONTH_ABBREV_TO_FULL:", ["C15"],
+    ("mo-long-strip", M + "month.py", "        elif isinstance(v, str):\n            v_lower = v.lower()\n\n",
+     "        elif isinstance(v, str):\n            v_lower = v.strip().lower()\n\n", ["C15"],
      "blank-padded abbreviations are treated as months by the long-name middleware"),
     ("ep-both-truthiness", B + "entrypoint.py", "if parse_stack is not None and append_middleware is not None:", "if parse_stack and append_middleware:", ["C20"],
      "an empty stack / empty addition given together with the other no longer raises"),
